@@ -34,6 +34,9 @@ type Action struct {
 	// LongBackoff: for a Fail or Repeat release, make the delay before the next pick long (the next
 	// action is expected to be stop, which then lands inside the delay)
 	LongBackoff bool `json:"long_backoff,omitempty"`
+	// StopInAfterHandle: the stop request is made from the AfterHandle callback of this release, i.e. after the
+	// handler returned and its result was applied but before the worker picks its next task
+	StopInAfterHandle bool `json:"stop_in_after_handle,omitempty"`
 }
 
 type Case struct {
@@ -91,6 +94,9 @@ func Gen(t *rapid.T, withStop bool) Case {
 			}
 			if preStop && (a.Status == "Fail" || a.Status == "Repeat") {
 				a.LongBackoff = true
+			}
+			if preStop && (a.Status == "Success" || a.Status == "Keep") && rapid.Bool().Draw(t, "stopInAfterHandle") {
+				a.StopInAfterHandle = true
 			}
 		case "stall":
 			a.Queue = q("sq")
@@ -216,6 +222,7 @@ func Run(c Case) (ev.Info, error) {
 		return nil
 	}
 	stopped := false
+	stoppedAfterHandle := ""
 	pendingElsewhere := false
 	for step, a := range c.Actions {
 		where := fmt.Sprintf("step %d %s", step, a.K)
@@ -308,6 +315,11 @@ func Run(c Case) (ev.Info, error) {
 					pendingElsewhere = true
 				}
 			}
+			if a.StopInAfterHandle && step+1 < len(c.Actions) && c.Actions[step+1].K == "stop" {
+				res.AfterHandle = func() { tqs.Stop() }
+				stoppedAfterHandle = a.Queue
+				stopped = true
+			}
 			if err := st.w.Release(res, true); err != nil {
 				return info, fmt.Errorf("%s: %v", where, err)
 			}
@@ -349,6 +361,10 @@ func Run(c Case) (ev.Info, error) {
 			nonEmpty = true
 		}
 		switch {
+		case n == stoppedAfterHandle:
+			// the worker had not picked another task when the request was made
+			allowed[n] = 0
+			info.Labels = append(info.Labels, "stop:after-handle")
 		case st.w.InFlight != nil:
 			allowed[n] = 0
 			info.Labels = append(info.Labels, "stop:in-handler")
@@ -362,7 +378,9 @@ func Run(c Case) (ev.Info, error) {
 		}
 	}
 	info.NonTrivial = nonEmpty
-	tqs.Stop()
+	if stoppedAfterHandle == "" {
+		tqs.Stop()
+	}
 	// tasks keep arriving after the stop request
 	for _, n := range c.Queues {
 		for i := 0; i < c.AfterStop; i++ {
@@ -430,6 +448,9 @@ func Run(c Case) (ev.Info, error) {
 func stateName(allowed int, st *qstate) string {
 	if st.backoff {
 		return "waiting in a back-off delay"
+	}
+	if allowed == 0 && st.w.InFlight == nil {
+		return "between two tasks: its handler had returned and it had not picked the next task"
 	}
 	if allowed == 0 {
 		return "inside a handler"
